@@ -221,6 +221,14 @@ class C05(Oracle):
                     waiting += 1
                 elif (nd.id_number, i.id_number, i.arrival_date) in self.waited:
                     self.waited_then_started = True
+            # a service that started (or restarted) in this event started NOW: the recorded start is the instant the server became free
+            started = set(ev[5] for ev in R.log.micro[R.micro_from:] if ev[2] == "att" and ev[3] == nd.id_number)
+            for i in R.inds(nd):
+                if i.id_number in started and i.server and not i.is_blocked and not i.interrupted:
+                    st = i.service_start_date
+                    if st is not False and not isinstance(st, str) and st != R.t:
+                        self.fail("service-start-date-ne-instant-of-start", "ind %s took server %s of node %s at %r, its service start date says %r" % (
+                            i.id_number, getattr(i.server, "id_number", None), nd.id_number, R.t, st))
             if free and (waiting or nd.interrupted_individuals):
                 self.fail("idle-server-while-customer-waits", "node %s at t=%r: %d idle on-duty server(s), %d waiting/interrupted customer(s)" % (nd.id_number, R.t, free, max(waiting, len(nd.interrupted_individuals))))
 
